@@ -256,7 +256,7 @@ def run(opts):
             return dict(status=n % 256, stdout=stdout, files=files, unspecified=unspecified)
     if pending_not:
         return dict(status=len(opts) % 256, stdout=stdout, files=files, unspecified=True)
-    return dict(status=0, stdout=stdout, files=files, unspecified=unspecified)
+    return dict(status=0, stdout=stdout, files=files, unspecified=unspecified, depth=len(stack))
 
 
 def dump_eq(a, b):
